@@ -159,9 +159,9 @@ def c02(tier):
         gen_replay(v, wd, tier, "C02", "MaxT = 2 MaxId = 3 MaxSteps = 2 MaxExt = 1\n Menu <- MenuSmall Seed = TRUE Starts = {0} Limits <- LimitsNone HeapInit = FALSE", 8,
                    "external add while paused", tag="g2")
     else:
-        gen_replay(v, wd, tier, "C02", "MaxT = 4 MaxId = 4 MaxSteps = 1 MaxExt = 2\n Menu <- MenuPast Seed = TRUE Starts = {0, 2, 3} Limits <- LimitsNone HeapInit = FALSE", 10,
-                   "programs with past/present/future adds, start in {0,2,3}")
-        gen_replay(v, wd, tier, "C02", "MaxT = 3 MaxId = 3 MaxSteps = 2 MaxExt = 3\n Menu <- MenuPast Seed = TRUE Starts = {0, 2} Limits <- LimitsNone HeapInit = FALSE", 8,
+        gen_replay(v, wd, tier, "C02", "MaxT = 4 MaxId = 4 MaxSteps = 1 MaxExt = 2\n Menu <- MenuPast Seed = TRUE Starts = {0, 3} Limits <- LimitsNone HeapInit = FALSE", 10,
+                   "programs with past/present/future adds, start in {0,3}")
+        gen_replay(v, wd, tier, "C02", "MaxT = 3 MaxId = 3 MaxSteps = 2 MaxExt = 2\n Menu <- MenuPast Seed = TRUE Starts = {0, 2} Limits <- LimitsNone HeapInit = FALSE", 8,
                    "external adds while paused", tag="g2")
     record_validate(v, wd, tier, "C02")
     time_cases(v, wd, tier)
